@@ -28,6 +28,7 @@ def work(modname, cid, q):
     st = {}
     for pr in res.paths:
         st[pr.status] = st.get(pr.status, 0) + 1
+        for n in getattr(pr, 'notes', []): out.append("   note " + n)
         if pr.status in ('unsupported', 'error'):
             out.append(f"   path {pr.status}: {pr.detail[:400]}")
         if pr.crosscheck and pr.crosscheck['status'] not in ('agree',):
